@@ -366,7 +366,7 @@ def run(ctx):
     ctx.cov.update(evaluations=J.n + nedit, distinct_nontrivial=len(J.nontrivial), traces_validated_against_impl=J.n + nedit,
                    streams=len(streams), scaled_streams=len(scaled), scheduled_replays=len(sched), edit_requests=nedit, differential_pairs=ndiff,
                    exhaustive=True, observation_table_states=len(tbl),
-                   rule="every stream of length <= %d over the 17-element alphabet of BulkAbs.tla ({g1, g2, missing graph, empty name, schema-suffixed name} x "
+                   rule="every stream of length <= %d over the 18-element alphabet of BulkAbs.tla ({g1, g2, missing graph, empty name, schema-suffixed name} x "
                         "{vertex, edge, neither} x {valid, invalid}, repeated ids) plus sampled streams of length 5 and scaled streams of lengths 49-51, 99-101, 250; "
                         "each replayed on server.BulkAdd (plain; behind BulkWriteFilter with 3 policies), kvgraph BulkAdd, util.StreamBatch (batch 1-3, 50) and "
                         "one-by-one AddVertex/AddEdge, then counts and the complete observation compared with the abstract outcome; "
